@@ -1,6 +1,6 @@
 """C12 — async methods: exact Output, Send by default, opt-out honoured."""
 from ..common import Report
-from ..corpus import load
+from ..corpus import load, load_repo_tests
 from ..model import ty_s, mentions
 from ..wrules import (FnModView, TraitView, ImplBlockView, trait_methods, impl_methods, in_macro, last_seg, impls_of)
 
@@ -46,8 +46,10 @@ def run(tier):
     rep = Report("C12", tier, "translation_validation")
     configs = ["plain", "unimock_test"] if tier == "quick" else ["plain", "test", "unimock", "unimock_test"]
     programs = 0
-    for cfg in configs:
-        ld = load(rep, "pos", cfg)
+    loaded = [(cfg, load(rep, "pos", cfg)) for cfg in configs]
+    if tier == "thorough":
+        loaded.append(("unimock_test", load_repo_tests(rep)))
+    for cfg, ld in loaded:
         crate = ld.crate
         for exp in crate.expansions:
             key0 = exp.ident()
